@@ -208,10 +208,21 @@ package xmpp
 //@   assigns iq.Type, iq.From, iq.To, iq.Error, senderQueue(s).Uslice
 //@   emits Send, SendAttrs, Write
 //
-//@ pred pendingWf(r) := r.IQResultRoutes != nil ==> alls(k, mapHas(r.IQResultRoutes, k) ==> mapGet(r.IQResultRoutes, k) != nil)
+// C07: the table of pending IQ requests is shared between SendIQ callers, the receive path and the clean-up
+// goroutines. It is only touched with IQResultRouteLock held; taking the lock forgets its content (other goroutines may
+// have changed it) and gives back the lock invariant; every access is a ghost event (DESIGN.md 2.7).
+//@ event MapGet_IQResultRoutes(o Ref, k Str, found Bool, v *xmpp.IQResultRoute)
+//@ event MapSet_IQResultRoutes(o Ref, k Str, v *xmpp.IQResultRoute)
+//@ event MapDel_IQResultRoutes(o Ref, k Str, had Bool, v *xmpp.IQResultRoute)
+//@ pred pendingWf(r) := r.IQResultRoutes != nil ==> alls(k, mapHas(r.IQResultRoutes, k) ==> mapGet(r.IQResultRoutes, k) != nil && mapGet(r.IQResultRoutes, k).result != nil && chancap(mapGet(r.IQResultRoutes, k).result) >= 1)
+//@ guarded xmpp.Router.IQResultRoutes by IQResultRouteLock [C07.table] invariant pendingWf($o)
+//@ pred tableQuiet() := count(MapSet_IQResultRoutes) == old(count(MapSet_IQResultRoutes)) && count(MapDel_IQResultRoutes) == old(count(MapDel_IQResultRoutes))
+//@ pred lockFree(r) := !locked(addr(r.IQResultRouteLock)) && rlocked(addr(r.IQResultRouteLock)) == 0
 //@ pred isIQRequest(p) := typeof(p) == *stanza.IQ && (p.(*stanza.IQ).Type == "get" || p.(*stanza.IQ).Type == "set")
-//@ pred pendingIQ(r, p) := typeof(p) == *stanza.IQ && r.IQResultRoutes != nil && mapHas(r.IQResultRoutes, p.(*stanza.IQ).Id)
-//@ pred plainPacket(r, p) := typeof(p) != stanza.SMAnswer && !pendingIQ(r, p)
+// A packet goes to the ordinary routes unless it is an acknowledgement or this activation found - and removed - a
+// pending request with its id ("pending" can only mean: found in the table inside the critical section).
+//@ pred plainPacket(p) := typeof(p) != stanza.SMAnswer && count(MapDel_IQResultRoutes) == old(count(MapDel_IQResultRoutes))
+//@ pred newSends() := count(ChanSend) - old(count(ChanSend))
 //
 // C10: the acknowledgement arithmetic, from the property statement. ackedPrefix(q, h, k): exactly the first k held
 // stanzas have a sequence number <= h (a prefix, because sequence numbers increase).
@@ -238,17 +249,26 @@ package xmpp
 //@   emit Routed(s, p)
 //@   requires wfRouter(r) && s != nil && p != nil
 //@   requires typeof(p) == *stanza.IQ ==> p.(*stanza.IQ) != nil
-//@   requires pendingWf(r)
 //@   requires (typeof(p) == stanza.SMAnswer && typeof(s) == *Client) ==> s.(*Client) != nil && s.(*Client).Session != nil
-//@   ensures [C06.once] old(plainPacket(r, p)) && !old(noRoute(r, p)) ==> count(HandlePacket) == old(count(HandlePacket)) + 1 && last(HandlePacket, 1) == s && last(HandlePacket, 2) == p && count(Send) == old(count(Send)) && count(SendRaw) == old(count(SendRaw))
-//@   ensures [C06.once.first] old(plainPacket(r, p)) && !old(noRoute(r, p)) ==> exists(i, 0, old(len(r.routes)), old(firstAt(r, p, i)) && last(HandlePacket, 0) == old(r.routes[i].handler))
-//@   ensures [C06.iqerr] old(plainPacket(r, p)) && old(noRoute(r, p)) && old(isIQRequest(p)) ==> count(HandlePacket) == old(count(HandlePacket)) && count(Send) == old(count(Send)) + 1 && last(Send, 0) == s && last(Send, 1) == p && count(SendAttrs) == old(count(SendAttrs)) + 1 && last(SendAttrs, 0) == "error" && last(SendAttrs, 1) == old(pkId(p)) && last(SendAttrs, 2) == old(pkTo(p)) && last(SendAttrs, 3) == old(pkFrom(p)) && last(SendAttrs, 4) == "feature-not-implemented"
-//@   ensures [C06.quiet] old(plainPacket(r, p)) && old(noRoute(r, p)) && !old(isIQRequest(p)) ==> count(HandlePacket) == old(count(HandlePacket)) && count(Send) == old(count(Send)) && count(SendRaw) == old(count(SendRaw))
+//@   ensures [C06.once] plainPacket(p) && !old(noRoute(r, p)) ==> count(HandlePacket) == old(count(HandlePacket)) + 1 && last(HandlePacket, 1) == s && last(HandlePacket, 2) == p && count(Send) == old(count(Send)) && count(SendRaw) == old(count(SendRaw))
+//@   ensures [C06.once.first] plainPacket(p) && !old(noRoute(r, p)) ==> exists(i, 0, old(len(r.routes)), old(firstAt(r, p, i)) && last(HandlePacket, 0) == old(r.routes[i].handler))
+//@   ensures [C06.iqerr] plainPacket(p) && old(noRoute(r, p)) && old(isIQRequest(p)) ==> count(HandlePacket) == old(count(HandlePacket)) && count(Send) == old(count(Send)) + 1 && last(Send, 0) == s && last(Send, 1) == p && count(SendAttrs) == old(count(SendAttrs)) + 1 && last(SendAttrs, 0) == "error" && last(SendAttrs, 1) == old(pkId(p)) && last(SendAttrs, 2) == old(pkTo(p)) && last(SendAttrs, 3) == old(pkFrom(p)) && last(SendAttrs, 4) == "feature-not-implemented"
+//@   ensures [C06.quiet] plainPacket(p) && old(noRoute(r, p)) && !old(isIQRequest(p)) ==> count(HandlePacket) == old(count(HandlePacket)) && count(Send) == old(count(Send)) && count(SendRaw) == old(count(SendRaw))
 //@   requires wfQueue(senderQueue(s))
-//@   ensures wfQueue(senderQueue(s)) && backingOK(senderQueue(s)) && pendingWf(r) && r.IQResultRoutes == old(r.IQResultRoutes)
+//@   ensures wfQueue(senderQueue(s)) && backingOK(senderQueue(s)) && r.IQResultRoutes == old(r.IQResultRoutes)
+//@   requires r.IQResultRoutes != nil && lockFree(r)
+//@   ensures [C07.route.lookup]    typeof(p) != *stanza.IQ ==> count(MapGet_IQResultRoutes) == old(count(MapGet_IQResultRoutes)) && tableQuiet() && newSends() == 0 && count(Close) == old(count(Close))
+//@   ensures [C07.route.found]     typeof(p) == *stanza.IQ ==> count(MapGet_IQResultRoutes) == old(count(MapGet_IQResultRoutes)) + 1 && last(MapGet_IQResultRoutes, 0) == r && last(MapGet_IQResultRoutes, 1) == old(p.(*stanza.IQ).Id) && count(MapSet_IQResultRoutes) == old(count(MapSet_IQResultRoutes)) && count(MapDel_IQResultRoutes) - old(count(MapDel_IQResultRoutes)) == ite(last(MapGet_IQResultRoutes, 2), 1, 0)
+//@   ensures [C07.route.atomic]    count(MapDel_IQResultRoutes) > old(count(MapDel_IQResultRoutes)) ==> last(MapDel_IQResultRoutes, 0) == r && last(MapDel_IQResultRoutes, 1) == old(p.(*stanza.IQ).Id) && last(MapDel_IQResultRoutes, 2) && last(MapDel_IQResultRoutes, 3) == last(MapGet_IQResultRoutes, 3) && last(MapDel_IQResultRoutes, 3) != nil
+//@   ensures [C07.route.deliver]   newSends() == count(MapDel_IQResultRoutes) - old(count(MapDel_IQResultRoutes)) && (newSends() == 1 ==> last(ChanSend, 0) == last(MapDel_IQResultRoutes, 3).result && last(ChanSend_IQ, 0) == last(ChanSend, 0) && last(ChanSend_IQ, 1) == old(*p.(*stanza.IQ)))
+//@   ensures [C07.route.close]     count(Close) - old(count(Close)) == newSends() && (newSends() == 1 ==> last(Close, 0) == last(ChanSend, 0) && atlast(ChanSend) < atlast(Close))
+//@   ensures [C07.route.noblock]   newSends() == 1 ==> chancap(last(ChanSend, 0)) >= 1
+//@   ensures [C07.route.exclusive] newSends() == 1 ==> count(HandlePacket) == old(count(HandlePacket)) && count(Send) == old(count(Send)) && count(SendRaw) == old(count(SendRaw))
+//@   ensures [C07.route.lock]      lockFree(r)
+//@   assigns locked(addr(r.IQResultRouteLock)), rlocked(addr(r.IQResultRouteLock))
 //@   assigns senderQueue(s).Uslice, p.(*stanza.IQ).Type, p.(*stanza.IQ).From, p.(*stanza.IQ).To, p.(*stanza.IQ).Error
 //@   elems r.IQResultRoutes
-//@   emits HandlePacket, Send, SendAttrs, SendRaw, Write, ChanSend, Close
+//@   emits HandlePacket, Send, SendAttrs, SendRaw, Write, ChanSend, ChanSend_IQ, Close, MapGet_IQResultRoutes, MapDel_IQResultRoutes
 //@   at call SendMissingStz assert [C10.route.h] typeof(p) == stanza.SMAnswer && typeof(s) == *Client && ($lastSent == p.(stanza.SMAnswer).H || p.(stanza.SMAnswer).H >= 9223372036854775808) && $uaq == s.(*Client).Session.SMState.UnAckQueue && $s == s
 
 // ---------------------------------------------------------------------------
@@ -779,32 +799,75 @@ package xmpp
 //@   emits Write
 //
 //@ event Registered(r Ref, id Str)
+//@ pred setsOne(r, id) := count(MapSet_IQResultRoutes) == old(count(MapSet_IQResultRoutes)) + 1 && last(MapSet_IQResultRoutes, 0) == r && last(MapSet_IQResultRoutes, 1) == id && last(MapSet_IQResultRoutes, 2) != nil
 //@ func (*xmpp.Router).NewIQResultRoute(r, ctx, id) (ch)
-//@   requires r != nil && r.IQResultRoutes != nil
+//@   requires r != nil && r.IQResultRoutes != nil && lockFree(r)
 //@   emit Registered(r, id)
-//@   ensures [C07.register] ch != nil && mapHas(r.IQResultRoutes, id) && mapGet(r.IQResultRoutes, id) != nil && mapGet(r.IQResultRoutes, id).result == ch && fresh(ch)
-//@   ensures [C07.register.others] alls(k, k != id ==> mapHas(r.IQResultRoutes, k) == old(mapHas(r.IQResultRoutes, k)) && mapGet(r.IQResultRoutes, k) == old(mapGet(r.IQResultRoutes, k)))
-//@   ensures [C07.register.lock] locked(addr(r.IQResultRouteLock)) == old(locked(addr(r.IQResultRouteLock)))
+//@   ensures [C07.register]         ch != nil && fresh(ch) && chancap(ch) >= 1 && setsOne(r, id) && last(MapSet_IQResultRoutes, 2).result == ch && fresh(last(MapSet_IQResultRoutes, 2))
+//@   ensures [C07.register.only]    count(MapDel_IQResultRoutes) == old(count(MapDel_IQResultRoutes)) && count(ChanSend) == old(count(ChanSend)) && count(Close) == old(count(Close))
+//@   ensures [C07.register.lock]    lockFree(r)
+//@   ensures [C07.register.cleanup] count(Spawn_NewIQResultRoute$1) == old(count(Spawn_NewIQResultRoute$1)) + 1
 //@   elems r.IQResultRoutes
-//@   assigns locked(addr(r.IQResultRouteLock))
-//@   emits Spawn, Spawn_NewIQResultRoute$1
+//@   assigns locked(addr(r.IQResultRouteLock)), rlocked(addr(r.IQResultRouteLock))
+//@   emits Spawn, Spawn_NewIQResultRoute$1, MapSet_IQResultRoutes
 //
+// Removal other than by delivery (context ended, request not sent): only the caller's own entry, never a newer
+// request that reuses the id; nothing is sent or closed.
+//@ pred dropsOwn(r, id) := count(MapDel_IQResultRoutes) - old(count(MapDel_IQResultRoutes)) <= 1 && count(MapDel_IQResultRoutes) >= old(count(MapDel_IQResultRoutes)) && (count(MapDel_IQResultRoutes) > old(count(MapDel_IQResultRoutes)) ==> last(MapDel_IQResultRoutes, 0) == r && last(MapDel_IQResultRoutes, 1) == id && last(MapDel_IQResultRoutes, 2))
+//@ func (*xmpp.Router).dropIQResultRoute(r, id, route)
+//@   requires r != nil && r.IQResultRoutes != nil && lockFree(r) && route != nil
+//@   ensures [C07.drop.own]   dropsOwn(r, id) && (count(MapDel_IQResultRoutes) > old(count(MapDel_IQResultRoutes)) ==> last(MapDel_IQResultRoutes, 3) == route)
+//@   ensures [C07.drop.quiet] count(MapSet_IQResultRoutes) == old(count(MapSet_IQResultRoutes)) && count(ChanSend) == old(count(ChanSend)) && count(Close) == old(count(Close))
+//@   ensures [C07.drop.lock]  lockFree(r)
+//@   elems r.IQResultRoutes
+//@   assigns locked(addr(r.IQResultRouteLock)), rlocked(addr(r.IQResultRouteLock))
+//@   emits MapGet_IQResultRoutes, MapDel_IQResultRoutes
+//@ func (*xmpp.Router).cancelIQResultRoute(r, id, result)
+//@   requires r != nil && r.IQResultRoutes != nil && lockFree(r)
+//@   ensures [C07.cancel.own]   dropsOwn(r, id) && (count(MapDel_IQResultRoutes) > old(count(MapDel_IQResultRoutes)) ==> last(MapDel_IQResultRoutes, 3) != nil && last(MapDel_IQResultRoutes, 3).result == result)
+//@   ensures [C07.cancel.quiet] count(MapSet_IQResultRoutes) == old(count(MapSet_IQResultRoutes)) && count(ChanSend) == old(count(ChanSend)) && count(Close) == old(count(Close))
+//@   ensures [C07.cancel.lock]  lockFree(r)
+//@   elems r.IQResultRoutes
+//@   assigns locked(addr(r.IQResultRouteLock)), rlocked(addr(r.IQResultRouteLock))
+//@   emits MapGet_IQResultRoutes, MapDel_IQResultRoutes
+//@ func (*xmpp.Router).NewIQResultRoute$1(route, r, id)
+//@   requires r != nil && r.IQResultRoutes != nil && route != nil && route.context != nil && lockFree(r)
+//@   ensures [C07.cleanup.own]   dropsOwn(r, id) && (count(MapDel_IQResultRoutes) > old(count(MapDel_IQResultRoutes)) ==> last(MapDel_IQResultRoutes, 3) == route)
+//@   ensures [C07.cleanup.quiet] count(MapSet_IQResultRoutes) == old(count(MapSet_IQResultRoutes)) && count(ChanSend) == old(count(ChanSend)) && count(Close) == old(count(Close))
+//@   ensures [C07.cleanup.lock]  lockFree(r)
+//@   elems r.IQResultRoutes
+//@   assigns locked(addr(r.IQResultRouteLock)), rlocked(addr(r.IQResultRouteLock))
+//@   emits MapGet_IQResultRoutes, MapDel_IQResultRoutes, ChanRecv
+//
+// SendIQ: the pending entry exists before the request is written (a response can only follow the write, so it finds
+// the entry whenever it arrives), the caller gets that entry's channel, and a request that could not be written
+// leaves no entry behind.
 //@ func (*xmpp.Client).SendIQ(c, ctx, iq) (ch, err)
-//@   requires clientOK(c) && iq != nil && c.router != nil && c.router.IQResultRoutes != nil
+//@   requires clientOK(c) && iq != nil && c.router != nil && c.router.IQResultRoutes != nil && lockFree(c.router)
 //@   ensures [C08.sendiq.reject] (old(iq.Type) != "set" && old(iq.Type) != "get") ==> err == ErrCanOnlySendGetOrSetIq && ch == nil && count(Write) == old(count(Write)) && count(Registered) == old(count(Registered))
 //@   ensures [C08.sendiq.once]   err == nil ==> count(Write) == old(count(Write)) + 1 && last(Write, 1) == xmlOf(iface(iq)) && last(Write, 2) && ch != nil
 //@   ensures [C08.sendiq.err]    (count(Write) == old(count(Write)) + 1 && !last(Write, 2)) ==> err != nil
-//@   assigns c.Session.SMState.UnAckQueue.Uslice, locked(addr(c.router.IQResultRouteLock))
+//@   ensures [C07.sendiq.channel] err == nil ==> setsOne(c.router, old(iq.Id)) && ch == last(MapSet_IQResultRoutes, 2).result && chancap(ch) >= 1 && count(MapDel_IQResultRoutes) == old(count(MapDel_IQResultRoutes))
+//@   ensures [C07.sendiq.failed]  err != nil ==> ch == nil && count(MapSet_IQResultRoutes) - old(count(MapSet_IQResultRoutes)) <= 1
+//@   ensures [C07.sendiq.lock]    lockFree(c.router)
+//@   at call Send assert [C07.sendiq.order] setsOne(c.router, iq.Id) && count(MapDel_IQResultRoutes) == old(count(MapDel_IQResultRoutes))
+//@   at call cancelIQResultRoute assert [C07.sendiq.cancel] $id == iq.Id && $result == last(MapSet_IQResultRoutes, 2).result
+//@   assigns c.Session.SMState.UnAckQueue.Uslice, locked(addr(c.router.IQResultRouteLock)), rlocked(addr(c.router.IQResultRouteLock))
 //@   elems c.Session.SMState.UnAckQueue.Uslice, c.router.IQResultRoutes
-//@   emits Write, Marshaled, Send, SendAttrs, Registered, Spawn, Spawn_NewIQResultRoute$1
+//@   emits Write, Marshaled, Send, SendAttrs, Registered, Spawn, Spawn_NewIQResultRoute$1, MapSet_IQResultRoutes, MapGet_IQResultRoutes, MapDel_IQResultRoutes
 //
 //@ func (*xmpp.Component).SendIQ(c, ctx, iq) (ch, err)
-//@   requires c != nil && iq != nil && c.router != nil && c.router.IQResultRoutes != nil
+//@   requires c != nil && iq != nil && c.router != nil && c.router.IQResultRoutes != nil && lockFree(c.router)
 //@   ensures [C08.comp.sendiq.reject] (old(iq.Type) != "set" && old(iq.Type) != "get") ==> err == ErrCanOnlySendGetOrSetIq && ch == nil && count(Write) == old(count(Write)) && count(Registered) == old(count(Registered))
 //@   ensures [C08.comp.sendiq.once]   err == nil ==> count(Write) == old(count(Write)) + 1 && last(Write, 1) == xmlOf(iface(iq)) && last(Write, 2) && ch != nil
-//@   assigns locked(addr(c.router.IQResultRouteLock))
+//@   ensures [C07.comp.sendiq.channel] err == nil ==> setsOne(c.router, old(iq.Id)) && ch == last(MapSet_IQResultRoutes, 2).result && chancap(ch) >= 1 && count(MapDel_IQResultRoutes) == old(count(MapDel_IQResultRoutes))
+//@   ensures [C07.comp.sendiq.failed]  err != nil ==> ch == nil && count(MapSet_IQResultRoutes) - old(count(MapSet_IQResultRoutes)) <= 1
+//@   ensures [C07.comp.sendiq.lock]    lockFree(c.router)
+//@   at call Send assert [C07.comp.sendiq.order] setsOne(c.router, iq.Id) && count(MapDel_IQResultRoutes) == old(count(MapDel_IQResultRoutes))
+//@   at call cancelIQResultRoute assert [C07.comp.sendiq.cancel] $id == iq.Id && $result == last(MapSet_IQResultRoutes, 2).result
+//@   assigns locked(addr(c.router.IQResultRouteLock)), rlocked(addr(c.router.IQResultRouteLock))
 //@   elems c.router.IQResultRoutes
-//@   emits Write, Marshaled, Send, SendAttrs, Registered, Spawn, Spawn_NewIQResultRoute$1
+//@   emits Write, Marshaled, Send, SendAttrs, Registered, Spawn, Spawn_NewIQResultRoute$1, MapSet_IQResultRoutes, MapGet_IQResultRoutes, MapDel_IQResultRoutes
 
 // ---------------------------------------------------------------------------
 // C18: keepalive
